@@ -358,7 +358,11 @@ for opi in range(n_ops):
         r = safe(lambda: on_loop(client, cloops, 'q::cli(:idf);q(%%s)' %% lit)); l = safe(lambda: twin('idf(%%s)' %% lit))
         record(form, 'proxy idf(%%s)' %% lit, r, l)
     elif form == 'dset':
-        r = safe(lambda: on_loop(client, cloops, 'dcli,:%%s,,%%s' %% (nm, lit)) and None); l = safe(lambda: twin('%%s::%%s' %% (nm, lit)) and None)
+        def dset_():
+            arr = np.empty(2, dtype=object); arr[0] = KGSym(nm); arr[1] = on_loop(client, cloops, lit)
+            client['pair'] = arr
+            on_loop(client, cloops, 'dcli,pair')
+        r = safe(dset_); l = safe(lambda: twin('%%s::%%s' %% (nm, lit)) and None)
         r2 = safe(lambda: on_loop(client, cloops, 'dcli?:%%s' %% nm)); l2 = safe(lambda: twin[KGSym(nm)])
         record(form, '%%s::%%s' %% (nm, lit), r2, l2)
     elif form == 'dget':
